@@ -1006,6 +1006,10 @@ where
                 }
             },
             TsType::TsTypeLit(TsTypeLit { members, .. }) => {
+                if members.is_empty() {
+                    // `{}`
+                    runtime_types.insert(Some(atom!("Object")));
+                }
                 members.iter().for_each(|member| {
                     if let TsTypeElement::TsCallSignatureDecl(..)
                     | TsTypeElement::TsConstructSignatureDecl(..) = member
